@@ -382,6 +382,14 @@ def kernel_case(ctx, agg, impl, src, name, A, B, dt, la, lb, block):
     agg.tick(op, **attrs)
     ref = ref_dist(a, b, squared)  # from the values actually passed
     ctx.count(evaluations=1, traces=1, transitions=1)
+    if block == "K5":
+        a = np.array(a)
+        b = np.array(b)
+        a.setflags(write=False)
+        b.setflags(write=False)
+        attrs["layout"] = "read-only"
+        agg.tick(op, **attrs)
+    snap_a, snap_b = a.copy(), b.copy()
 
     def fail(symptom, what):
         case = {"kind": "kernel", "op": op, "impl": impl, "name": name, "A": A.tolist(), "B": B.tolist(), "dt": dt, "la": la, "lb": lb, "symptom": symptom}
@@ -418,6 +426,10 @@ def kernel_case(ctx, agg, impl, src, name, A, B, dt, la, lb, block):
         if rc == 4:
             fail("out-of-bounds-write", "wrote outside its result array (guard zone damaged)")
             return
+    changed = [n for n, x, sn in (("first-input", a, snap_a), ("second-input", b, snap_b)) if not (x.dtype == sn.dtype and np.array_equal(x, sn))]
+    if changed:
+        fail(f"caller-input-mutated[{'+'.join(changed)}]", f"changed the caller's {' and '.join(changed)} array in place")
+        return
     if not isinstance(got, np.ndarray):
         fail("result-not-an-array", f"returned {type(got).__name__}")
         return
@@ -506,6 +518,14 @@ def kernel_job(ctx, agg, arg):
     for name in names if "K3" in blocks else ():
         for dt in dts:
             kernel_case(ctx, agg, impl, src, name, A, allp, dt, "C", "C", "K3")
+    # K5: read-only input arrays (a kernel that writes into its input fails here, and so does one that demands writeable buffers)
+    for n, m, st in ((1, 1, 0), (2, 3, 4), (4, 2, 9)) if "K3" in blocks else ():
+        A = wrapA(window(table, st, n), 2)
+        B = window(table, st + 5, m)
+        nstates += 1
+        for name in names:
+            for dt in dts:
+                kernel_case(ctx, agg, impl, src, name, A, B, dt, "C", "C", "K5")
     # K4: coordinates that are not exactly representable (float32 and float64 round them differently)
     it = inexact_table(seed, tsize)
     for n, m in ((1, 1), (3, 2), (2, 4)) if "K4" in blocks else ():
@@ -595,32 +615,103 @@ def check_grid(r1, r2, pad, sp, dtype, got):
     return None, counts
 
 
-def grid_case(ctx, agg, r1, r2, pad, sp, dtype):
+ARG_KINDS = ("list", "tuple", "ndarray-exact-dtype", "ndarray-other-dtype", "non-contiguous-view", "read-only")
+
+
+def make_corner(values, kind, dtype):
+    """the same three numbers as the kind of object a caller may hand in -> (object, python source)"""
+    vals = [float(v) for v in values]
+    other = "float64" if dtype == "float32" else "float32"
+    if kind == "list":
+        return list(vals), repr(vals)
+    if kind == "tuple":
+        return tuple(vals), repr(tuple(vals))
+    if kind == "ndarray-exact-dtype":
+        return np.array(vals, dtype=dtype), f"np.array({vals!r}, dtype=np.{dtype})"
+    if kind == "ndarray-other-dtype":
+        return np.array(vals, dtype=other), f"np.array({vals!r}, dtype=np.{other})"
+    if kind == "non-contiguous-view":
+        big = np.full(6, 77, dtype=dtype)
+        big[::2] = vals
+        return big[::2], f"np.array({[x for v in vals for x in (v, 77.0)]!r}, dtype=np.{dtype})[::2]"
+    if kind == "read-only":
+        a = np.array(vals, dtype=dtype)
+        a.setflags(write=False)
+        return a, f"_ro(np.array({vals!r}, dtype=np.{dtype}))"
+    raise HarnessError(kind)
+
+
+def snapshot(x):
+    if isinstance(x, np.ndarray):
+        base = x.base if isinstance(x.base, np.ndarray) else None
+        return ("a", x.dtype.str, x.shape, x.tobytes(), None if base is None else base.tobytes())
+    return ("o", repr(x))
+
+
+def same_as_snapshot(x, snap):
+    return snapshot(x) == snap
+
+
+def same_result(r1, r2):
+    if isinstance(r1, np.ndarray) and isinstance(r2, np.ndarray):
+        return r1.shape == r2.shape and r1.dtype == r2.dtype and bool(np.array_equal(r1, r2, equal_nan=r1.dtype.kind == "f"))
+    return type(r1) is type(r2) and r1 == r2
+
+
+def grid_case(ctx, agg, r1, r2, pad, sp, dtype, argkind="list"):
+    o1, src1 = make_corner(r1, argkind, dtype)
+    o2, src2 = make_corner(r2, argkind, dtype)
+    if argkind == "ndarray-other-dtype" and dtype == "float64":
+        # float32 corners given to a float64 request: the box is the one the float32 numbers describe
+        r1 = tuple(float(x) for x in o1)
+        r2 = tuple(float(x) for x in o2)
     classes = [grid_axis_class(r1[ax], r2[ax], pad, sp)[0] for ax in range(3)]
     if "skip" in classes:
         return
     cls = "decimal-multiple" if "decimal-multiple" in classes else ("exact-multiple" if "exact-multiple" in classes else "general")
     op = "rectangular_grid"
-    attrs = {"dtype": dtype, "extent": cls, "padding": "zero" if pad == 0 else "nonzero"}
+    attrs = {"dtype": dtype, "extent": cls, "padding": "zero" if pad == 0 else "nonzero", "argkind": argkind}
     agg.tick(op, **attrs)
-    case = {"kind": "grid", "op": op, "r1": list(r1), "r2": list(r2), "pad": pad, "sp": sp, "dtype": dtype}
-    repro = f"from molli.descriptor.gridbased import rectangular_grid\ng = rectangular_grid({list(r1)!r}, {list(r2)!r}, padding={pad!r}, spacing={sp!r}, dtype={dtype!r})\nprint(g.shape); print(g.min(axis=0), g.max(axis=0))"
+    case = {"kind": "grid", "op": op, "r1": list(r1), "r2": list(r2), "pad": pad, "sp": sp, "dtype": dtype, "argkind": argkind}
+    repro = (
+        "import numpy as np\nfrom molli.descriptor.gridbased import rectangular_grid\n"
+        "def _ro(a):\n    a.setflags(write=False)\n    return a\n"
+        f"r1 = {src1}\nr2 = {src2}\n"
+        f"g = rectangular_grid(r1, r2, padding={pad!r}, spacing={sp!r}, dtype={dtype!r})\nprint(g.shape, g.min(axis=0), g.max(axis=0)); print(r1, r2)\n"
+        f"g = rectangular_grid(r1, r2, padding={pad!r}, spacing={sp!r}, dtype={dtype!r})\nprint(g.shape, g.min(axis=0), g.max(axis=0)); print(r1, r2)"
+    )
     ctx.count(evaluations=1, traces=1, transitions=1, states=1)
+    s1, s2 = snapshot(o1), snapshot(o2)
+    got = None
     try:
-        got = gb.rectangular_grid(list(r1), list(r2), padding=pad, spacing=sp, dtype=dtype)
+        got = gb.rectangular_grid(o1, o2, padding=pad, spacing=sp, dtype=dtype)
     except Exception as e:
         sym, det = f"raised-{type(e).__name__}", f"raised {type(e).__name__}: {e}"
-        got = None
     else:
         sym, det = check_grid(r1, r2, pad, sp, dtype, got)
+    if not sym:
+        changed = [n for n, o, sn in (("r1", o1, s1), ("r2", o2, s2)) if not same_as_snapshot(o, sn)]
+        if changed:
+            sym, det = f"caller-input-mutated[{'+'.join(changed)}]", f"the caller's {' and '.join(changed)} changed during the call: now r1={np.asarray(o1).tolist()}, r2={np.asarray(o2).tolist()}"
+    if not sym and argkind != "list":
+        # history independence: the same call with the same caller objects gives the same grid
+        ctx.count(evaluations=1, traces=1, transitions=1)
+        try:
+            again = gb.rectangular_grid(o1, o2, padding=pad, spacing=sp, dtype=dtype)
+        except Exception as e:
+            sym, det = f"repeated-call-raised-{type(e).__name__}", f"the second identical call raised {type(e).__name__}: {e}"
+        else:
+            if not same_result(got, again):
+                sym, det = "repeated-call-differs", f"the second identical call returned {getattr(again, 'shape', None)} points spanning {again.min(axis=0).tolist()}..{again.max(axis=0).tolist()}, the first {got.shape} spanning {got.min(axis=0).tolist()}..{got.max(axis=0).tolist()}"
     if sym:
         c = dict(case)
         c["symptom"] = sym
-        agg.fail(op, sym, attrs, f"rectangular_grid({list(r1)}, {list(r2)}, padding={pad}, spacing={sp}, dtype={dtype}): {det}", c, repro)
+        agg.fail(op, sym, attrs, f"rectangular_grid({src1}, {src2}, padding={pad}, spacing={sp}, dtype={dtype}): {det}", c, repro)
         return
+    det_counts = check_grid(r1, r2, pad, sp, dtype, got)[1] if not isinstance(det, list) else det
     if len(got) > 1:
-        ctx.nontrivial(("grid", tuple(det), cls, dtype))
-    ctx.outcome(("grid", tuple(det)))
+        ctx.nontrivial(("grid", tuple(det_counts), cls, dtype, argkind))
+    ctx.outcome(("grid", tuple(det_counts)))
 
 
 def grid_menus(seed, thorough):
@@ -649,6 +740,10 @@ def grid_job(ctx, agg, arg):
                 for sp in spacings:
                     for dtype in ("float32", "float64"):
                         grid_case(ctx, agg, r1, r2, pad, sp, dtype)
+                        # the kind of object the caller hands in (sub-menu of spacings; every corner, extent, padding, dtype)
+                        if sp in (spacings[1], spacings[2]) or arg["thorough"]:
+                            for kind in ARG_KINDS[1:]:
+                                grid_case(ctx, agg, r1, r2, pad, sp, dtype, kind)
 
 
 # =================================================================================================
@@ -767,8 +862,26 @@ def check_nearest(got, d, max_dist, band):
     return None, None, nchk
 
 
+def _inputs_changed(grid, grid_snap, obj, coords, charges=None, weights=None):
+    """which caller-owned inputs differ from what was handed in ('' when none): the grid array and the object's arrays"""
+    out = []
+    if not (grid.dtype == grid_snap.dtype and grid.shape == grid_snap.shape and np.array_equal(grid, grid_snap)):
+        out.append("grid")
+    try:
+        if not np.array_equal(np.asarray(obj.coords, dtype=np.float64), np.asarray(coords, dtype=np.float64)):
+            out.append("coords")
+        if charges is not None and not np.array_equal(np.asarray(obj.atomic_charges, dtype=np.float64), np.asarray(charges, dtype=np.float64)):
+            out.append("atomic_charges")
+        if weights is not None and not np.array_equal(np.asarray(obj.weights, dtype=np.float64), np.asarray(weights, dtype=np.float64)):
+            out.append("weights")
+    except Exception:
+        out.append("object-state-unreadable")
+    return "+".join(out)
+
+
 def nearest_prune_case(ctx, agg, label, kind, els, coords, charges, weights, gname, grid):
     """kind: 'ensemble' or a single-geometry class name (then coords is [1,na,3])"""
+    grid_snap = grid.copy()
     M = max(1.0, float(np.abs(coords).max()), float(np.abs(grid).max()))
     band = BAND * M
     d = dist_all(coords, grid)  # nc, na, ng
@@ -798,6 +911,10 @@ def nearest_prune_case(ctx, agg, label, kind, els, coords, charges, weights, gna
         except Exception as e:
             sym, det = f"raised-{type(e).__name__}", f"raised {type(e).__name__}: {e}"
         else:
+            mut = _inputs_changed(grid, grid_snap, obj, coords if kind == "ensemble" else coords[0])
+            if mut:
+                sym, det = f"caller-input-mutated[{mut}]", f"the caller's {mut} changed during the call"
+        if not sym:
             if kind == "ensemble":
                 if not isinstance(got, np.ndarray) or got.shape != (coords.shape[0], len(grid)):
                     sym, det = "malformed-result", f"returned shape {getattr(got, 'shape', None)}, expected (n_conformers, n_gridpoints)"
@@ -831,7 +948,10 @@ def nearest_prune_case(ctx, agg, label, kind, els, coords, charges, weights, gna
             except Exception as e:
                 sym, det = f"raised-{type(e).__name__}", f"raised {type(e).__name__}: {e}"
             else:
-                if not isinstance(got, np.ndarray) or got.ndim != 1 or got.dtype.kind not in "iu" or (got.size and (got.min() < 0 or got.max() >= len(grid))):
+                mut = _inputs_changed(grid, grid_snap, obj, coords if kind == "ensemble" else coords[0])
+                if mut:
+                    sym, det = f"caller-input-mutated[{mut}]", f"the caller's {mut} changed during the call"
+                elif not isinstance(got, np.ndarray) or got.ndim != 1 or got.dtype.kind not in "iu" or (got.size and (got.min() < 0 or got.max() >= len(grid))):
                     sym, det = "malformed-result", f"returned {type(got).__name__} {getattr(got, 'shape', None)} {getattr(got, 'dtype', None)}"
                 else:
                     kept = set(int(x) for x in got)
@@ -898,7 +1018,8 @@ def field_case(ctx, agg, label, els, coords, charges, weights, gname, grid):
     custom_r = np.array([0.9, 2.05, 1.3][: coords.shape[1]])
     custom_v = np.array([[1.0 + a + 10.0 * c for a in range(coords.shape[1])] for c in range(coords.shape[0])])
     nc = coords.shape[0]
-    own_nearest = None
+    custom_v0, custom_r0 = custom_v.copy(), custom_r.copy()
+    grid_snap = grid.copy()
     for weighted in (False, True):
         calls = [
             ("aso", None, vdw, lambda: gb.aso(ens, grid, weighted=weighted), f"print(gb.aso(ens, grid, weighted={weighted}))"),
@@ -923,7 +1044,12 @@ def field_case(ctx, agg, label, els, coords, charges, weights, gname, grid):
                 sym, det = f"raised-{type(e).__name__}", f"raised {type(e).__name__}: {e}"
             else:
                 exp, ok = ref_indicator(d, radii, vals, weights if weighted else None, band)
-                if not isinstance(got, np.ndarray) or got.shape != exp.shape or got.dtype.kind != "f":
+                mut = _inputs_changed(grid, grid_snap, ens, coords, charges, weights)
+                if not mut and not (np.array_equal(custom_v, custom_v0) and np.array_equal(custom_r, custom_r0)):
+                    mut = "indicator_values/atomic_radii"
+                if mut:
+                    sym, det = f"caller-input-mutated[{mut}]", f"the caller's {mut} changed during the call"
+                elif not isinstance(got, np.ndarray) or got.shape != exp.shape or got.dtype.kind != "f":
                     sym, det = "malformed-result", f"returned {type(got).__name__} {getattr(got, 'shape', None)} {getattr(got, 'dtype', None)}, expected one float per grid point"
                 else:
                     err = np.abs(got.astype(np.float64) - exp)
@@ -988,6 +1114,10 @@ def run(ctx):
         "aeif / atomic_indicator_field: value of the nearest atom when the point lies inside any sphere of the conformer, else 0; grid points where "
         "'nearest atom' and 'nearest atom among the spheres containing the point' differ in value are not compared (the text does not choose)",
         "van der Waals radii are read from Atom.vdw_radius (input data of the definition)",
+        "argument kinds: rectangular_grid corners as list / tuple / ndarray of the requested dtype / of the other float dtype / non-contiguous view / read-only array; "
+        "grids (and value/radius/index arrays) for the descriptors and kernel inputs as C / Fortran / sliced / read-only ndarrays of both float widths (lists are only "
+        "given where the signature says ArrayLike). After every call every caller-owned array must be bit-identical to its snapshot, and the same call repeated on the "
+        "same caller objects must return the same result; a read-only input must not make a call fail",
         "history sequences: the reference is evaluated on the state read back from the object after each edit (coords, charges, weights, elements); a sequence whose edit raises "
         "or leaves the object non-rectangular is stopped and counted in the notes (that is C14/C05 matter, not C19)",
     ]
@@ -1025,6 +1155,7 @@ def run(ctx):
     for lo in range(0, 4 if thorough else 2):
         jobs.append(("history:ens3", hist.descriptor_history_job, {"seed": seed, "thorough": thorough, "part": "ens3", "lo": lo, "hi": lo + 1}))
     jobs.append(("history:geom", hist.descriptor_history_job, {"seed": seed, "thorough": thorough, "part": "geom"}))
+    jobs.append(("argument-kinds", hist.argkind_job, {"seed": seed, "thorough": thorough}))
     ctx.bound["history"] = {
         "ensemble_functions": list(hist.ENS_FUNCS), "ensemble_edits": list(hist.ENS_EDITS), "geometry_functions": list(hist.GEOM_FUNCS), "geometry_edits": list(hist.GEOM_EDITS),
         "calls_per_sequence": "2 (all ordered function pairs x every edit) and 3 (reduced menus)", "base_objects": nb,
@@ -1072,7 +1203,7 @@ def replay(ctx, case):
         src = SrcKernels(compile_src(ctx.scratch)) if case["impl"] == "src" else None
         kernel_case(ctx, agg, case["impl"], src, case["name"], np.array(case["A"], dtype=np.float64).reshape(-1, 3) if np.array(case["A"]).ndim < 3 else np.array(case["A"], dtype=np.float64), np.array(case["B"], dtype=np.float64).reshape(-1, 3), case["dt"], case["la"], case["lb"], "replay")
     elif kind == "grid":
-        grid_case(ctx, agg, tuple(case["r1"]), tuple(case["r2"]), case["pad"], case["sp"], case["dtype"])
+        grid_case(ctx, agg, tuple(case["r1"]), tuple(case["r2"]), case["pad"], case["sp"], case["dtype"], case.get("argkind", "list"))
     elif kind == "nearest_prune":
         coords = np.array(case["coords"], dtype=np.float64)
         grid = np.array(case["grid"], dtype=np.dtype(case["gdtype"])).reshape(-1, 3)
@@ -1085,6 +1216,10 @@ def replay(ctx, case):
         from mc.props import c19_history as hist
 
         hist.replay_history(ctx, agg, case)
+    elif kind == "argkind":
+        from mc.props import c19_history as hist
+
+        hist.replay_argkind(ctx, agg, case)
     elif kind == "kernel-history":
         from mc.props import c19_history as hist
 
